@@ -183,19 +183,33 @@ def actions_case(draw):
                 a = draw(st.integers(0, len(rec[1]) - 1))
                 b = draw(st.integers(a, len(rec[1])))
                 rec[1] = rec[1][:a] + rec[1][a:b].lower() + rec[1][b:]
-    return {"sub": "actions", "paired": False, "fastq": True, "r1": r1, "r2": None, "ad1": defs, "ad2": [],
-            "glob": glob, "o": o}
+    sc = {"sub": "actions", "paired": False, "fastq": True, "r1": r1, "r2": None, "ad1": defs, "ad2": [],
+          "glob": glob, "o": o}
+    if action in ("mask", "lowercase", "none") and draw(st.integers(0, 2)) == 0:
+        # paired variant: adapters on both reads (cross matches matter for --revcomp)
+        defs2 = draw(c09.adapter_list(1, allow_linked=False))[:2]
+        r1b, r2b = draw(scen.reads(defs + defs2, defs2 + defs, True, fastq=True, n_max=4))
+        if action == "lowercase":
+            for rec in r1b + r2b:
+                if rec[1] and draw(st.booleans()):
+                    a = draw(st.integers(0, len(rec[1]) - 1))
+                    rec[1] = rec[1][:a] + rec[1][a:].lower()
+        sc.update(paired=True, r1=r1b, r2=r2b, ad2=defs2)
+    return sc
 
 
 def check_actions(sc, ctx):
     files, names = scen.input_files(sc)
     action = sc["o"]["action"]
+    paired = sc["paired"]
 
     def run(act, with_adapters=True, info=False):
         s2 = dict(sc, o=dict(sc["o"], action=act))
         if not with_adapters:
-            s2["ad1"] = []
+            s2["ad1"], s2["ad2"] = [], []
         args = scen.flatten(scen.mod_tokens(s2)) + (["--info-file", "info.tsv"] if info else []) + ["-o", "out.fastq"]
+        if paired:
+            args += ["-p", "out2.fastq"]
         r = cli.run(args + names, files)
         if r.exit != 0:
             raise Violation(f"cutadapt failed on {args}: exit={r.exit} {r.errors} {r.tb}")
@@ -205,8 +219,8 @@ def check_actions(sc, ctx):
     _, rt = run("trim")
     _, rn = run("none")
     _, r0 = run("trim", with_adapters=False)
-    X, T, S, R0 = (r.records("out.fastq") for r in (rx, rt, rn, r0))
     ctx.label("action:" + action)
+    ctx.label("paired" if paired else "single")
     nt = False
     rows = {}
     if action in ("retain", "crop"):
@@ -214,63 +228,77 @@ def check_actions(sc, ctx):
             if ln:
                 f = ln.split("\t")
                 rows.setdefault(f[0].split()[0], []).append(f)
-    for x, t, s, base in zip(X, T, S, R0):
-        rid = x[0].split()[0]
-        flagged = bool(sc["o"].get("revcomp")) and s[0] == base[0] + " rc"
-        # none leaves the read as it was (in the chosen orientation)
-        b = model.revcomp_record(tuple(base)) if flagged else tuple(base)
-        if (s[1], s[2]) != (b[1], b[2]):
-            raise Violation(f"--action=none changed read {rid}: {s[1]!r}/{s[2]!r} vs stage input {b[1]!r}/{b[2]!r} ({args})",
-                            observed=list(s), expected=list(b))
-        matched = t[1] != s[1] or len(t[1]) != len(s[1])
-        if action == "none":
-            nt = nt or matched
-            continue
-        if action in ("mask", "lowercase"):
-            if len(x[1]) != len(s[1]) or x[2] != s[2]:
-                raise Violation(f"--action={action} changed the length or the qualities of {rid}: {x} vs stage input {s} ({args})")
-            ok = False
-            for a in range(0, len(s[1]) - len(t[1]) + 1):
-                if action == "mask":
-                    if s[1][a:a + len(t[1])] == t[1] and x[1] == "N" * a + t[1] + "N" * (len(s[1]) - a - len(t[1])):
-                        ok = True
-                        break
-                else:
-                    if s[1][a:a + len(t[1])].upper() == t[1].upper() and \
-                            x[1] == s[1][:a].lower() + t[1].upper() + s[1][a + len(t[1]):].lower():
-                        ok = True
-                        break
-            if not ok:
-                raise Violation(f"--action={action} result {x[1]!r} of read {rid} is not the stage input {s[1]!r} with "
-                                f"everything outside the part kept by trim ({t[1]!r}) "
-                                f"{'masked' if action == 'mask' else 'lower-cased (kept part upper-cased)'} ({args})",
-                                observed=x[1], expected={"stage_input": s[1], "trim_keeps": t[1]})
-            nt = nt or matched
-            continue
-        # retain / crop: interval from the info file (times == 1)
-        rws = rows.get(rid, [])
-        if len(rws) != 1:
-            raise Violation(f"{len(rws)} info rows for read {rid} with --times 1 ({args})")
-        f = rws[0]
-        if f[1] == "-1":
-            if (x[1], x[2]) != (s[1], s[2]):
-                raise Violation(f"read {rid} has no match but was changed by --action={action} ({args})")
-            continue
-        rstart, rstop = int(f[2]), int(f[3])
-        five = (t[1] == s[1][rstop:] and t[2] == s[2][rstop:])
-        three = (t[1] == s[1][:rstart] and t[2] == s[2][:rstart])
-        if action == "crop":
-            exp = [(s[1][rstart:rstop], s[2][rstart:rstop])]
-        else:
-            exp = []
-            if five:
-                exp.append((s[1][rstart:], s[2][rstart:]))
-            if three:
-                exp.append((s[1][:rstop], s[2][:rstop]))
-        if (x[1], x[2]) not in exp:
-            raise Violation(f"--action={action} on read {rid} ({s[1]!r}, match [{rstart},{rstop})) gave {x[1]!r}/{x[2]!r}, "
-                            f"documented interval gives {exp} ({args})", observed=[x[1], x[2]], expected=exp)
-        nt = True
+    sides = [("out.fastq", 0)] + ([("out2.fastq", 1)] if paired else [])
+    R0 = [r0.records("out.fastq")] + ([r0.records("out2.fastq")] if paired else [])
+    for fname, side in sides:
+        X, T, S = rx.records(fname), rt.records(fname), rn.records(fname)
+        for k, (x, t, s) in enumerate(zip(X, T, S)):
+            rid = x[0].split()[0]
+            base = R0[side][k]
+            revcomp = bool(sc["o"].get("revcomp"))
+            if paired:
+                mate = R0[1 - side][k]
+                flagged = revcomp and s[0] == mate[0] + " rc"
+                b = tuple(mate) if flagged else tuple(base)
+            else:
+                flagged = revcomp and s[0] == base[0] + " rc"
+                b = model.revcomp_record(tuple(base)) if flagged else tuple(base)
+            # none leaves the read as it was (in the chosen orientation)
+            if (s[1], s[2]) != (b[1], b[2]):
+                raise Violation(f"--action=none changed read {rid} (R{side + 1}): {s[1]!r}/{s[2]!r} vs stage input "
+                                f"{b[1]!r}/{b[2]!r} ({args})", observed=list(s), expected=list(b))
+            matched = t[1] != s[1] or len(t[1]) != len(s[1])
+            if action == "none":
+                nt = nt or matched
+                continue
+            if action in ("mask", "lowercase"):
+                if len(x[1]) != len(s[1]) or x[2] != s[2]:
+                    raise Violation(f"--action={action} changed the length or the qualities of {rid} (R{side + 1}): "
+                                    f"{x} vs stage input {s} ({args})")
+                ok = False
+                for a in range(0, len(s[1]) - len(t[1]) + 1):
+                    if action == "mask":
+                        if s[1][a:a + len(t[1])] == t[1] and x[1] == "N" * a + t[1] + "N" * (len(s[1]) - a - len(t[1])):
+                            ok = True
+                            break
+                    else:
+                        if s[1][a:a + len(t[1])].upper() == t[1].upper() and \
+                                x[1] == s[1][:a].lower() + t[1].upper() + s[1][a + len(t[1]):].lower():
+                            ok = True
+                            break
+                if not ok and action == "lowercase" and not matched and paired and not (sc["ad1"] if side == 0 else sc["ad2"]):
+                    ok = x[1] == s[1]  # no adapters for this read: it is left alone
+                if not ok:
+                    raise Violation(f"--action={action} result {x[1]!r} of read {rid} (R{side + 1}) is not the stage input "
+                                    f"{s[1]!r} with everything outside the part kept by trim ({t[1]!r}) "
+                                    f"{'masked' if action == 'mask' else 'lower-cased (kept part upper-cased)'} ({args})",
+                                    observed=x[1], expected={"stage_input": s[1], "trim_keeps": t[1]})
+                nt = nt or matched
+                continue
+            # retain / crop: interval from the info file (times == 1, single-end)
+            rws = rows.get(rid, [])
+            if len(rws) != 1:
+                raise Violation(f"{len(rws)} info rows for read {rid} with --times 1 ({args})")
+            f = rws[0]
+            if f[1] == "-1":
+                if (x[1], x[2]) != (s[1], s[2]):
+                    raise Violation(f"read {rid} has no match but was changed by --action={action} ({args})")
+                continue
+            rstart, rstop = int(f[2]), int(f[3])
+            five = (t[1] == s[1][rstop:] and t[2] == s[2][rstop:])
+            three = (t[1] == s[1][:rstart] and t[2] == s[2][:rstart])
+            if action == "crop":
+                exp = [(s[1][rstart:rstop], s[2][rstart:rstop])]
+            else:
+                exp = []
+                if five:
+                    exp.append((s[1][rstart:], s[2][rstart:]))
+                if three:
+                    exp.append((s[1][:rstop], s[2][:rstop]))
+            if (x[1], x[2]) not in exp:
+                raise Violation(f"--action={action} on read {rid} ({s[1]!r}, match [{rstart},{rstop})) gave {x[1]!r}/{x[2]!r}, "
+                                f"documented interval gives {exp} ({args})", observed=[x[1], x[2]], expected=exp)
+            nt = True
     if nt:
         ctx.nontrivial_case({"args": args})
 
